@@ -163,14 +163,21 @@ impl Decoder {
             return Ok((flags, value));
         }
 
-        let mut power = 0;
+        let mut power: u32 = 0;
         loop {
             let byte = bytes_reader
                 .get_bytes(1)
                 .ok_or(DecodingError::UnexpectedFin)?[0] as usize;
 
+            let chunk = byte & 0x7F;
+
+            // The shift must neither exceed the integer width nor drop any bit of the chunk.
+            if power >= usize::BITS || (chunk << power) >> power != chunk {
+                return Err(DecodingError::IntegerOverflow);
+            }
+
             value = value
-                .checked_add((byte & 0x7F) << power)
+                .checked_add(chunk << power)
                 .ok_or(DecodingError::IntegerOverflow)?;
 
             power += 7;
